@@ -384,3 +384,20 @@ func FSExists(path string) bool     { _, err := os.Stat(path); return err == nil
 func FSPerm(path string) int        { return 0o600 }
 func CrashAt(step int, torn bool)   {}
 func RunUntilCrash(f func()) bool   { f(); return false }
+
+// Real: a symbolic float64 treated as a real number by the solver.
+func Real(name string) float64 {
+	d, ok := next(name)
+	if !ok {
+		return 0.5
+	}
+	if s, ok := d.Value.(string); ok {
+		if f, err := strconv.ParseFloat(s, 64); err == nil {
+			return f
+		}
+	}
+	return 0.5
+}
+
+// ImpureCalls counts calls to the CSPRNG / clock models so far (solver only).
+func ImpureCalls() int { return 0 }
